@@ -30,6 +30,13 @@ def run(ctx: Ctx) -> None:
     S.writer_reader_agree(ctx, v, "C16.R2")
     S.mkdir_idempotent(ctx, v, "C16.R4")
     decode_set_store_local(ctx, v)
+    # a second data view of a shared internal directory gets all its paths: the complete map is committed even when
+    # every blob is already present (cache hit)
+    from .common import find_api_functions
+    from .c04 import commit_rules
+    rep.rule("C16.R5", "as C04.R1: the complete path map is committed on every evaluation, cache hit or not (each data view is complete)")
+    top, _nested = find_api_functions(ctx)
+    commit_rules(ctx, top, "C16.R5")
 
 
 def decode_set_store_local(ctx: Ctx, v) -> None:
